@@ -217,6 +217,43 @@ class Harness:
         return w.last
 
 
+def many_parameters_case(case):
+    """A declaration with very many parameters (most of them single-valued): the product still has every name, in
+    declaration order, and exactly the combinations of the few multi-valued ones."""
+    n = case['n']
+    pl = ParameterList()
+    names = []
+    for i in range(n):
+        name = f'p{i:04d}'
+        if i in (3, n // 2):
+            pl.add_parameter(name, [i, -i])
+        elif i % 97 == 0:
+            pl.add_parameter(name, (i,))
+        else:
+            pl.add_parameter(name, i)
+        names.append(name)
+    got = pl.build()
+    exp = []
+    for a in (3, -3):
+        for b in (n // 2, -(n // 2)):
+            d = {f'p{i:04d}': i for i in range(n)}
+            d['p0003'], d[f'p{n // 2:04d}'] = a, b
+            exp.append(d)
+    if not isinstance(got, list) or len(got) != 4:
+        raise Violation(f'{n} parameters, two of them two-valued: number of combinations', expected=4,
+                        observed=len(got) if isinstance(got, list) else repr(got)[:80])
+    for g, e in zip(got, exp):
+        if list(g) != names:
+            raise Violation(f'{n} parameters: a combination does not list every parameter in declaration order',
+                            expected=names[:5], observed=list(g)[:5])
+        if {k: _py(v) for k, v in g.items()} != e:
+            bad = next(k for k in names if _py(g[k]) != e[k])
+            raise Violation(f'{n} parameters: value of {bad} in a combination', expected=e[bad], observed=repr(g[bad]))
+    if pl.build() != got:
+        raise Violation(f'{n} parameters: second build differs from the first')
+    return n
+
+
 def churn_case(case):
     """Many short-lived parameter lists with long value collections of equal name and length but different contents
     (object addresses get reused): every build is the product of its own declaration."""
@@ -268,6 +305,15 @@ AMBIENT_LEGS = True
 
 
 def run(ctx):
+    for n in ((120,) if ctx.small else (1500,) if ctx.tier == 'quick' else (1500, 6000)):
+        case = {'leg': 'many_parameters', 'n': n}
+        ctx.traces += 1
+        try:
+            ctx.transitions += hbfs._guard(many_parameters_case, case)
+        except Violation as v:
+            ctx.report(case, v)
+            return
+    ctx.leg('many_parameters', note='1500 (thorough also 6000) declared parameters')
     for kind in ('list', 'tuple'):
         for items in (1, 2, 5, 60):
             case = {'leg': 'churn_same', 'kind': kind, 'items': items, 'rounds': 60}
@@ -309,6 +355,9 @@ def run(ctx):
 
 
 def replay(case):
+    if case['leg'] == 'many_parameters':
+        hbfs._guard(many_parameters_case, case)
+        return
     if case['leg'] == 'churn':
         hbfs._guard(churn_case, case)
         return
